@@ -289,12 +289,13 @@ Lemma build_ok : forall c, cfg_ok c ->
   PrimFloat.ltb 0%float (float_of_bits (c_pbits c)) = true ->
   PrimFloat.leb (float_of_bits (c_pbits c)) 1%float = true ->
   PrimFloat.leb 0%float (float_of_bits (c_pbits c)) = true ->
+  c_seed_hash c <> 0 ->
   sk_build c = Ok (sk_new c).
 Proof.
-  intros c [H1 [H2 _]] Hp1 Hp2 Hp3. unfold sk_build.
+  intros c [H1 [H2 _]] Hp1 Hp2 Hp3 Hsh. unfold sk_build.
   destruct (N.leb_spec MIN_LG_K (c_lg_nom c)); [|lia].
   destruct (N.leb_spec (c_lg_nom c) MAX_LG_K); [|lia].
-  cbn [andb negb]. rewrite Hp1, Hp2, Hp3. reflexivity.
+  cbn [andb negb]. rewrite Hp1, Hp2, Hp3. cbn [andb negb]. destruct (N.eqb_spec (c_seed_hash c) 0); [contradiction|reflexivity].
 Qed.
 
 End Kmv.
